@@ -197,6 +197,23 @@ def prepareMarkupE {V : Type} (code : Code) (P : Prims V) : Markup → Except Er
         | .error c => .error (pep479 c)
         | .ok de => .ok [⟨u, d.originalEncoding, de, d.containsReplacement⟩]
 
+/-- the non-raising view of the UnicodeDammit primitives -/
+def Prims.env {V : Type} (code : Code) (P : Prims V) : DammitEnv where
+  codecOf e := match findCodecE code P e with
+    | .ok c => c
+    | .error _ => none
+  decode c b := match P.decode c b with
+    | .ok u => some u
+    | .error _ => none
+  isAscii := P.isAscii
+
+/-- nothing on the UnicodeDammit path raises beyond what the two clauses absorb -/
+structure Prims.DammitQuiet {V : Type} (code : Code) (P : Prims V) (encs : List Nat) : Prop where
+  cands : P.cands = encs.map .ok
+  find : ∀ e, ∃ c, findCodecE code P e = .ok c
+  decode : ∀ c b x, P.decode c b = .error x → catches code.convertFrom x = true
+  log : P.logWarning = .ok ()
+
 /-! ### the beginner heuristics with the warning call -/
 
 def heuristicsE {V : Type} (code : Code) (P : Prims V) (m : Markup) : Except Err Warning :=
@@ -244,17 +261,34 @@ def charrefDecodeE {V : Type} (code : Code) (P : Prims V) (orig : Option Nat) (n
 def charrefChrE {V : Type} (code : Code) (P : Prims V) (n : Nat) (data : Option PStr) : Except Err (Option PStr) :=
   if truthy data then .ok data else absorb code.charrefChr data (someOf (P.chrOf n))
 
+/-- :253-276, once the number is known -/
+def charrefTailE {V : Type} (code : Code) (P : Prims V) (orig : Option Nat) (n : Nat) : Except Err PStr :=
+  match charrefDecodeE code P orig n with
+  | .error c => .error c
+  | .ok data =>
+    match charrefChrE code P n data with
+    | .error c => .error c
+    | .ok data => .ok (if truthy data then data.getD [] else [0xFFFD])
+
 /-- bs4/builder/_htmlparser.py:230-276 -/
 def handleCharrefE {V : Type} (code : Code) (P : Prims V) (orig : Option Nat) (name : PStr) : Except Err PStr :=
   match absorb code.charrefInt (Gen.C06.maxUnicode + 1) (charrefNumberE P name) with
   | .error c => .error c
-  | .ok n =>
-    match charrefDecodeE code P orig n with
-    | .error c => .error c
-    | .ok data =>
-      match charrefChrE code P n data with
-      | .error c => .error c
-      | .ok data => .ok (if truthy data then data.getD [] else [0xFFFD])
+  | .ok n => charrefTailE code P orig n
+
+/-- the three outcomes of a one-byte decode as exceptions -/
+def Dec1.toExcept : Dec1 → Except Err PStr
+  | .ok s => .ok s
+  | .decodeError => .error .unicodeDecodeError
+  | .otherError => .error .unicodeError
+
+/-- CPython's `int`/`chr`/Windows-1252 as modelled concretely in `Construct.lean`, and a document codec `f` -/
+structure Prims.CharrefConcrete {V : Type} (P : Prims V) (f : Nat → Nat → Dec1) : Prop where
+  intDec : P.intDec = pyIntDec
+  intHex : P.intHex = pyIntHex
+  dec1 : ∀ e n, P.dec1 e n = (f e n).toExcept
+  dec1252 : ∀ n, P.dec1252 n = (cp1252 n).toExcept
+  chrOf : ∀ n, P.chrOf n = if n ≤ Gen.C06.maxUnicode then .ok [n] else .error .valueError
 
 /-! ### feed, close, the callbacks -/
 
@@ -398,6 +432,19 @@ def Covers (code : Code) (r : Recorded) : Bool :=
   r.callbacks.all (okAtCtor code) &&
   code.closeGuarded && code.encodeReplace
 
+/-- the tree-building callbacks write only fields in `X` (for the real code: `Gen.C06.feedTouches`, instrumented) -/
+structure Prims.Frames {V : Type} (P : Prims V) (X : List Field) : Prop where
+  applyData : ∀ d o, AgreeOff X (P.applyData d o).1 o
+  applyOther : ∀ k o, AgreeOff X (P.applyOther k o).1 o
+  endOfInput : ∀ o, AgreeOff X (P.endOfInput o).1 o
+
+/-- the loop targets and `reset()` assign fixed sets of fields, and what `reset()` computes does not depend on what it
+    assigns -/
+structure Frame.WF {V : Type} (F : Frame V) (R H : List Field) : Prop where
+  headerKeys : ∀ s, (F.header s).map Prod.fst = H
+  freshKeys : ∀ o, (F.fresh o).map Prod.fst = R
+  freshFrame : ∀ o o', AgreeOff R o o' → F.fresh o = F.fresh o'
+
 /-! ### injection at the primitives: the executable form of "all call paths" -/
 
 /-- the primitives by name (the same names as `harness/c06_envelope.py` POINTS) -/
@@ -430,9 +477,7 @@ def Prims.quiet : Prims Unit where
   intDec := pyIntDec
   intHex := pyIntHex
   dec1 _ n := .ok [n]
-  dec1252 n := match cp1252 n with
-    | .ok s => .ok s
-    | _ => .error .unicodeDecodeError
+  dec1252 n := (cp1252 n).toExcept
   chrOf n := if n ≤ Gen.C06.maxUnicode then .ok [n] else .error .valueError
   applyData _ o := (o, none)
   applyOther _ o := (o, none)
